@@ -92,7 +92,7 @@ def serialise(case: dict) -> bytes:
     head = HEADER_V2.format(p=p, v=v)
     if case.get("crlf"):
         head = head.replace("\n", "\r\n")
-    body = "".join(line + "\n" for line in case["lines"])
+    body = "".join(line + "\n" for line in case["lines"] + bulk_lines(case.get("bulk")))
     if not case.get("nl", True) and body.endswith("\n"):
         body = body[:-1]
     comp = zlib.compressobj(case.get("level", 9))
@@ -106,6 +106,23 @@ def serialise(case: dict) -> bytes:
         out += comp.compress(raw)
     out += comp.flush()
     return head.encode("utf-8") + out
+
+
+def bulk_lines(bulk) -> list[str]:
+    """{"n": N, "salt": s} -> N well-formed entries with poorly compressible names (a real project's inventory has
+    thousands of entries and is several read buffers long, compressed and inflated)."""
+    if not bulk:
+        return []
+    import hashlib
+
+    out = []
+    for i in range(bulk["n"]):
+        h = hashlib.sha256(f"{bulk['salt']}:{i}".encode()).hexdigest()
+        typ = ("py:function", "py:class", "std:label", "py:module", "std:term")[int(h[0], 16) % 5]
+        disp = "-" if int(h[1], 16) % 2 else f"Title {h[2:9]} {h[9:12]}"
+        loc = f"api/{h[12:16]}.html#$" if int(h[2], 16) % 2 else f"g/{h[12:20]}.html#{h[20:26]}"
+        out.append(f"pkg{h[26:29]}.{h[29:44]} {typ} {int(h[3], 16) % 3 - 1} {loc} {disp}")
+    return out
 
 
 def entry_line(e: dict) -> str:
@@ -240,14 +257,16 @@ def check_case(acc, case: dict) -> list[dict]:
                          repr(base_repr)[:300], repr(r2)[:300]))
             break
     table = case.get("table", [])
-    interesting = any(" " in e["name"] or e["loc"].endswith("$") or e["disp"] == "-" for e in table)
+    interesting = any(" " in e["name"] or e["loc"].endswith("$") or e["disp"] == "-" for e in table) or bool(case.get("bulk"))
+    if case.get("bulk"):
+        cls.append("bulk:" + ("several-read-buffers" if total > 16 * 1024 else "one-read-buffer"))
     if acc is not None:
         acc.extra.setdefault("chunkings_evaluated", 0)
         acc.extra["chunkings_evaluated"] += nchunk
         if case.get("mutation"):
             cls.append("mutation:" + case["mutation"])
         acc.case(case, interesting and split_inside and nchunk > 0, cls,
-                 sample={k: case[k] for k in ("fmt", "project", "version", "lines", "nl") if k in case}
+                 sample={k: case[k] for k in ("fmt", "project", "version", "lines", "nl", "bulk") if k in case}
                  | {"bytes": total, "chunkings": nchunk})
     out, seen = [], set()
     for v in vs:
@@ -388,6 +407,25 @@ def sub_big(acc, shard, nshards, tier, seed):
             seed=shard_seed(seed, shard, 3), is_known=known().matches)
 
 
+@st.composite
+def large_st(draw):
+    case = draw(case_st())
+    if case["fmt"] != 2:
+        case = {**case, "fmt": 2, "table": [], "lines": []}
+    case["bulk"] = {"n": draw(st.sampled_from([400, 1500, 1500, 3000, 6000])), "salt": draw(st.integers(0, 10 ** 6))}
+    case["exhaustive_chunks"] = False
+    # the reader's own buffer size and its neighbours, sizes far below and above it, and a ragged schedule
+    case["chunk_sizes"] = [[16 * 1024], [4096], [16 * 1024 - 1, 16 * 1024 + 1], [1000], [1 << 20],
+                           draw(st.lists(st.integers(1, 40000), min_size=1, max_size=12))]
+    return case
+
+
+def sub_large(acc, shard, nshards, tier, seed):
+    n = 6 if tier == "quick" else 120
+    hyp_run(acc, large_st(), lambda c: check_case(acc, c), max_examples=n,
+            seed=shard_seed(seed, shard, 5), is_known=known().matches)
+
+
 def sub_static(acc, shard, nshards, tier, seed):
     """The two inventory files shipped with the test-suite, under random chunkings."""
     import os
@@ -420,7 +458,7 @@ def sub_static(acc, shard, nshards, tier, seed):
 
 def plan(tier):
     return [Sub("small", sub_small, 16), Sub("big", sub_big, 12 if tier == "quick" else 16),
-            Sub("static", sub_static, 2)]
+            Sub("static", sub_static, 2), Sub("large", sub_large, 6 if tier == "quick" else 16)]
 
 
 def replay(sub, input):
